@@ -319,6 +319,8 @@ func runC10(c *eng.Ctx) {
 		{Regs: []Reg{mkReg("Leaf_K0_a", godi.Scoped), mkReg("VoidK0", godi.Scoped), mkReg("Leaf_K1_a", godi.Scoped), mkReg("ErrOnlyK1", godi.Scoped), mkReg("NewDec0", godi.Scoped), mkReg("NewDec1", godi.Singleton), mkReg("NewDec2", godi.Transient)}},
 		{Regs: []Reg{mkReg("MR_K0K1e", godi.Singleton), mkReg("PosB_2_3", godi.Singleton), mkReg("OutE_S0S4", godi.Scoped), mkReg("MR_S1S2S5e", godi.Transient)}},
 		{Regs: []Reg{mkReg("Leaf_K0_a", godi.Singleton), mkReg("PosB_1_1", godi.Singleton), mkReg("PosB_2_3", godi.Singleton), mkReg("PosB_3_7", godi.Singleton)}},
+		// disposable singletons + root-scope initializers (the last Build phase can fail too)
+		{Regs: []Reg{mkReg("Leaf_K0_a", godi.Singleton), mkReg("PosB_1_1", godi.Singleton), mkReg("VoidK0", godi.Scoped), mkReg("ErrOnlyK1", godi.Scoped), mkReg("ErrOnly0", godi.Scoped), mkReg("Leaf_S0_a", godi.Scoped), mkReg("VoidS0", godi.Scoped)}},
 		// one instance under several identities (aliases), every lifetime
 		{Regs: []Reg{mkReg("Leaf_K0_a", godi.Scoped, withAs("IK0", "IA")), mkReg("Leaf_K1_a", godi.Singleton, withAs("IK1", "IA", "IB"), withName("k")), mkReg("Leaf_K2_a", godi.Transient, withAs("IK2", "IB"), withGroup("g")), mkReg("OutG_K0K1", godi.Scoped), mkReg("MR_S0S4", godi.Transient, withGroup("h"))}},
 	}
@@ -398,6 +400,11 @@ func runC10(c *eng.Ctx) {
 // on these histories too.
 var C11Concurrent func(c *eng.Ctx, next func() (int, bool))
 
+// C11ResolveRace is installed by package conc: two goroutines of one scope resolve a
+// dependency and its dependent for the first time at (almost) the same moment; the scope is
+// then closed and the C11 order rules applied.
+var C11ResolveRace func(c *eng.Ctx, next func() (int, bool))
+
 // MonC11Exported lets package conc apply the C11 order oracle.
 func MonC11Exported(r *Run, o *Obs) ([]Finding, int) { return MonC11(r, o) }
 
@@ -406,6 +413,9 @@ func runC11(c *eng.Ctx) {
 	defer func() {
 		if C11Concurrent != nil {
 			C11Concurrent(c, cr.next)
+		}
+		if C11ResolveRace != nil {
+			C11ResolveRace(c, cr.next)
 		}
 	}()
 	n := c.Pick(1000, 30000)
